@@ -1,0 +1,10 @@
+//go:build verif
+
+// Contracts for package base (provider base), checked by /verif/govc. Comment-only: no code.
+package base
+
+// Ids are successive values of one atomic counter: every call returns a value never returned before.
+//@ func (p *ProviderBase) NextID
+//@ props C10
+//@ ensures [next-value-of-the-counter] result == old(p.idCounter) + 1 && p.idCounter == result
+//@ modifies p.idCounter
